@@ -51,19 +51,6 @@ theorem nextBar_eq (s : SimpleMovingAverage F) (b : Bar F) : s.nextBar b = s.nex
   unfold nextBar
   cases h : s.next b.close <;> simp [h]
 
-/-- `reset` rebuilds exactly the state `new` builds (state equality: any history, any values) -/
-theorem reset_eq (s : SimpleMovingAverage F) (h : WF s) : s.reset = some (fresh s.period) := by
-  unfold reset
-  simp [fill_all _ _ _ h.size, fresh]
-
 theorem period_fn_eq (s : SimpleMovingAverage F) : s.period_fn = s.period := rfl
-
-theorem display_eq (fmt : F → String) (s : SimpleMovingAverage F) :
-    display fmt s = "SMA(" ++ toString s.period ++ ")" := rfl
-
-theorem default_eq : (default_ : Option (SimpleMovingAverage F)) = some (fresh 9) := by
-  unfold default_
-  rw [new_eq]
-  simp [unwrap, isizeMax]
 
 end TaRs.Gen.SimpleMovingAverage
